@@ -77,7 +77,7 @@ def run_world(kind, invs_seed, quick, known_k8a, hist_steps=0):
         for cid in cat.leaf_ids():
             if not cat.supports_json(cid):
                 continue
-            invs += C.invocations_for(cat, cid, w, rng, alternates=3 if quick else 0, full=not quick)
+            invs += C.invocations_for(cat, cid, w, rng, alternates=4 if quick else 0, full=not quick)
         for inv in invs:
             a = R.run(inv, yes=False)
             if C.is_usage_error(a['rc'], a['out'], a['err']):
